@@ -474,6 +474,45 @@ def guarded(f, t=1.0):
         signal.signal(signal.SIGPROF, old)
 
 
+def each_named_operands(ctx):
+    """a named operand of '&' reports what it reports on its own: Each re-names the bodies of its repetition operands when it
+    groups them (once, on first use), so the name views of `A & B` on a text in either order must be those of A alone and
+    of B alone on their pieces.  (Repetitions named with a list-all name are left out: alone they list the repetition's token
+    list once, inside '&' the re-named body lists every item - a consequence of how '&' is built, not decided here.)"""
+    import itertools
+    import pyparsing as pp
+    N, W = lambda: pp.Word(pp.nums), lambda: pp.Word(pp.alphas)
+    digit_ops = [("plus-n", lambda: pp.OneOrMore(N())("n")), ("star-n", lambda: pp.ZeroOrMore(N())("n")),
+                 ("opt-n", lambda: pp.Opt(N())("n")), ("tok-n", lambda: N()("n")), ("tok-n*", lambda: N()("n*")),
+                 ("group-plus-n", lambda: pp.Group(pp.OneOrMore(N()))("n")), ("plus-inner-d", lambda: pp.OneOrMore(N()("d"))("n")),
+                 ("plus-inner-d*", lambda: pp.OneOrMore(N()("d*"))), ("slice-n", lambda: N()[1, 3]("n")), ("seq-n", lambda: (N() + N())("n"))]
+    alpha_ops = [("tok-w", lambda: W()("w")), ("plus-w", lambda: pp.OneOrMore(W())("w")), 
+                 ("opt-w", lambda: pp.Opt(W())("w")), ("star-w", lambda: pp.ZeroOrMore(W())("w")), ("group-w", lambda: pp.Group(W() + pp.Opt(W()))("w"))]
+    for (dn, dmk), (an, amk) in itertools.product(digit_ops, alpha_ops):
+        for dpiece, apiece in itertools.product(["7", "7 8", "7 8 9"], ["abc", "a b"]):
+            for order in ("da", "ad"):
+                text = (dpiece + " " + apiece) if order == "da" else (apiece + " " + dpiece)
+                for build in ("d&a", "a&d"):
+                    D, A = dmk(), amk()
+                    rd, ra = parse_ok(dmk(), dpiece), parse_ok(amk(), apiece)
+                    if rd is None or ra is None or rd.as_list() == [] or len(rd.as_list()) != len(dpiece.split()) or len(pp.ParseResults(ra.as_list()).as_list()) == 0:
+                        continue
+                    if sum(len(x) if isinstance(x, list) else 1 for x in ra.as_list()) != len(apiece.split()):
+                        continue
+                    e = (D & A) if build == "d&a" else (A & D)
+                    r = parse_ok(e, text)
+                    ctx.stat("each_named_operand_cases")
+                    ctx.case("each-named:%s|%s|%r|%s" % (dn, an, text, build), True, True)
+                    want = dict(real_name_view(rd))
+                    want.update(real_name_view(ra))
+                    got = None if r is None else real_name_view(r)
+                    if got != want:
+                        lost_inner = (got is not None and dn == "plus-inner-d" and "d" not in got and {k: v for k, v in want.items() if k != "d"} == got)
+                        ctx.violation("each-renames-repetition-body:inner-name-lost" if lost_inner else "each-named-operand:%s:%s:%r:%s" % (dn, an, text, build),
+                                      "(%s) on %r with operands %s, %s: names %r; the operands alone give %r" % (build, text, dn, an, got, want),
+                                      {"kind": "each-named", "d": dn, "a": an, "text": text, "build": build})
+
+
 def debug_metamorphic(ctx, n):
     """what a results name reports does not depend on diagnostics: the same grammar (names, list-all names, value-returning
     actions) gives the same tokens and names with quiet debug actions set on every node (the debug / fail-action branch of
@@ -609,6 +648,7 @@ def correspond(ctx):
         named = r["real"][0] == "ok" and len(r["real"][1][2]) > 0
         ctx.case(pcommon.key_of(r), named, r.get("agree", True))
     debug_metamorphic(ctx, 300 if not ctx.thorough else 3000)
+    each_named_operands(ctx)
     # (ii) compositional oracle
     npairs = 250 if not ctx.thorough else 2500
     nbad = 0
